@@ -6,57 +6,69 @@ namespace Clvm
 
 abbrev Bytes := List UInt8
 
-/-- Outcome kinds shared by all models.  The names are the `EvalErr` variant
-names of `src/error.rs`; `panic`, `internal` and `abort` are the explicit
-outcomes for Rust panics, `InternalError` and allocation aborts. -/
+/-- Outcome kinds shared by all models.  The constructor names are the `EvalErr`
+variant names of `src/error.rs` (compared with the implementation as a small enum:
+`Err.kind`); `Panic` and `Abort` are the explicit outcomes for a Rust panic
+(`unwrap`, `expect`, `assert!`, slice index, arithmetic overflow in debug builds) and for a
+process abort (allocation failure).  `InternalError` is a variant of `EvalErr`. -/
 inductive Err where
   | SerializationError
+  | SerializationBackreferenceError
   | OutOfMemory
-  | CostExceeded
-  | TooManyAtoms
-  | TooManyPairs
-  | InvalidOpArg (msg : String)
-  | InvalidOperator
-  | Unimplemented
   | PathIntoAtom
+  | TooManyPairs
+  | TooManyAtoms
+  | CostExceeded
+  | UnknownSoftforkExtension
+  | SoftforkCostMismatch
+  | InternalError (msg : String)
+  | Raise
   | InvalidNilTerminator
   | DivisionByZero
-  | ShiftTooLarge
   | ValueStackLimitReached
   | EnvironmentStackLimitReached
+  | ShiftTooLarge
+  | Reserved
+  | Invalid
+  | Unimplemented
+  | InvalidOpArg (msg : String)
   | InvalidAllocArg (msg : String)
-  | Raise
-  | SoftforkFailed (msg : String)
-  | InvalidSoftforkCost
-  | InternalError (msg : String)
+  | BLSPairingIdentityFailed
+  | BLSVerifyFailed
+  | Secp256Failed
+  | SoftforkStackDepthExceeded
   | Panic (msg : String)
   | Abort (msg : String)
-  | Other (msg : String)
   deriving Repr, DecidableEq, Inhabited
 
 def Err.kind : Err → String
   | .SerializationError => "SerializationError"
+  | .SerializationBackreferenceError => "SerializationBackreferenceError"
   | .OutOfMemory => "OutOfMemory"
-  | .CostExceeded => "CostExceeded"
-  | .TooManyAtoms => "TooManyAtoms"
-  | .TooManyPairs => "TooManyPairs"
-  | .InvalidOpArg _ => "InvalidOpArg"
-  | .InvalidOperator => "InvalidOperator"
-  | .Unimplemented => "Unimplemented"
   | .PathIntoAtom => "PathIntoAtom"
+  | .TooManyPairs => "TooManyPairs"
+  | .TooManyAtoms => "TooManyAtoms"
+  | .CostExceeded => "CostExceeded"
+  | .UnknownSoftforkExtension => "UnknownSoftforkExtension"
+  | .SoftforkCostMismatch => "SoftforkCostMismatch"
+  | .InternalError _ => "InternalError"
+  | .Raise => "Raise"
   | .InvalidNilTerminator => "InvalidNilTerminator"
   | .DivisionByZero => "DivisionByZero"
-  | .ShiftTooLarge => "ShiftTooLarge"
   | .ValueStackLimitReached => "ValueStackLimitReached"
   | .EnvironmentStackLimitReached => "EnvironmentStackLimitReached"
+  | .ShiftTooLarge => "ShiftTooLarge"
+  | .Reserved => "Reserved"
+  | .Invalid => "Invalid"
+  | .Unimplemented => "Unimplemented"
+  | .InvalidOpArg _ => "InvalidOpArg"
   | .InvalidAllocArg _ => "InvalidAllocArg"
-  | .Raise => "Raise"
-  | .SoftforkFailed _ => "SoftforkFailed"
-  | .InvalidSoftforkCost => "InvalidSoftforkCost"
-  | .InternalError _ => "InternalError"
+  | .BLSPairingIdentityFailed => "BLSPairingIdentityFailed"
+  | .BLSVerifyFailed => "BLSVerifyFailed"
+  | .Secp256Failed => "Secp256Failed"
+  | .SoftforkStackDepthExceeded => "SoftforkStackDepthExceeded"
   | .Panic _ => "Panic"
   | .Abort _ => "Abort"
-  | .Other _ => "Other"
 
 /-! ### hex -/
 
